@@ -199,9 +199,19 @@ func TestC05Programs(t *testing.T) {
 		prog := g.Program()
 		pr := gen.Print(prog)
 		params := rapid.SampledFrom(benignParams).Draw(rt, "params")
-		mutated := rapid.IntRange(0, 1).Draw(rt, "mutate") == 1
+		variant := rapid.IntRange(0, 4).Draw(rt, "variant")
+		mutated := variant >= 2
 		var src string
-		if mutated {
+		if variant == 4 {
+			// a documented misuse planted somewhere (C13 says it must be rejected;
+			// here: if anything comes out, it is still one well-formed statement)
+			kind := rapid.SampledFrom(plantKinds).Draw(rt, "plant")
+			if _, _, ok := plant(rt, g, prog, kind); ok {
+				st.Class("planted-misuse")
+			}
+			pr = gen.Print(prog)
+			src = gen.Layout(pr, nil).Src
+		} else if mutated {
 			toks, _ := g.MutateTokens(pr.Toks)
 			src = gen.Layout(gen.TokensOnly(toks), g.Seps(len(toks))).Src
 		} else {
